@@ -36,7 +36,7 @@ I0 = (0x4444, 1, 1)
 BIG = 0xFFFFFE
 NSYM = 23
 SWEEP_LEN = {"quick": 3, "thorough": 4}
-RANDOM_RUNS = {"quick": 50000, "thorough": 3000000}
+RANDOM_RUNS = {"quick": 36000, "thorough": 3000000}
 TIMINGS = {"INITIAL_DELAY_MIN": 0.0, "INITIAL_DELAY_MAX": 0.0, "REPETITIONS_MAX": 0, "CYCLIC_OFFER_DELAY": 0x2000000, "SEND_COLLECTION_TIMEOUT": 0.005, "SUBSCRIBE_REFRESH_INTERVAL": None, "SUBSCRIBE_TTL": 0xFFFFFF}
 
 
